@@ -124,7 +124,7 @@ func checkC09(c *Check) {
 	cfg := configuration.New()
 	nd := 60
 	if c.Tier == "thorough" {
-		nd = 400
+		nd = 150 // every document contributes (length x 3) value pairs that are kept until TLC has judged them
 	}
 	docs := ioDocs(c, nd)
 	var cases []cutCase
@@ -181,7 +181,7 @@ func checkC09(c *Check) {
 			ptree := valueTree(part)
 			mu.Lock()
 			cases = append(cases, cutCase{"prefix", format, doc, k, tname, ptree, ftree})
-			if format == "cbe" && tname == "untyped" {
+			if format == "cbe" && tname == "untyped" && len(doc) <= 160 {
 				// a binary element is delivered whole or not at all
 				cases = append(cases, cutCase{"prefix-strict", format, doc, k, tname, ptree, ftree})
 			}
@@ -233,7 +233,7 @@ func checkC09(c *Check) {
 	}
 	// markers on every kind of container: cut right after the marker and inside the marked container
 	mdocs := genCorpusFrom(c, "AlphaMarked", "FilterMarked", "<<EvBD, EvVer(0), EvList>>", map[string]int{"quick": 7, "thorough": 8}[c.Tier], "marked containers")
-	stride := len(mdocs)/map[string]int{"quick": 150, "thorough": 1500}[c.Tier] + 1
+	stride := len(mdocs)/map[string]int{"quick": 150, "thorough": 600}[c.Tier] + 1
 	var mpick []corpusDoc
 	for i, d := range mdocs {
 		hasMark := false
